@@ -153,7 +153,18 @@ def toml_value(kind, v):
         return "[" + ", ".join("{" + ", ".join(f"{k} = {toml_str(x)}" for k, x in e.items()) + "}" for e in v) + "]"
 
 
+MD_OWN_LINE = [False]     # set per case: the key stands on a line of its own, the value(s) on indented lines below
+
+
 def md_lines(name, kind, v):
+    if MD_OWN_LINE[0] and v != [] and v != {} and kind in ("int", "liststr", "listpath", "dict", "filetypes"):
+        MD_OWN_LINE[0] = False
+        try:
+            first = md_lines(name, kind, v)
+        finally:
+            MD_OWN_LINE[0] = True
+        head, val = first[0].split(":", 1)
+        return [head + ":", "    " + val.strip()] + first[1:]
     if kind == "bool":
         return [f"{name}: {'true' if v else 'false'}"]
     if kind in ("int", "str", "path"):
@@ -355,8 +366,11 @@ def gen_case(ch: Chooser, excl=()):
         override = {"key": key, "file_value": alt}
         formats.append(base + ">config")
     tkinds = sorted({kinds[n] for n in options})
+    own_line = "md_own_line" not in excl and ch.bool(1, 4)
     return {"options": options, "cli": cli, "special": spec, "cwd": cwd, "formats": formats, "override": override,
-            "classes": ["kind:" + k for k in tkinds] + (["special:" + spec["kind"]] if spec else []) + (["cli"] if cli else []),
+            "md_own_line": own_line,
+            "classes": ["kind:" + k for k in tkinds] + (["special:" + spec["kind"]] if spec else []) + (["cli"] if cli else []) +
+                       (["md:key-on-own-line"] if own_line else []),
             "nontrivial": len(options) >= 3 and len(tkinds) >= 2}
 
 
@@ -371,6 +385,7 @@ def check(case) -> Result:
     options, cli, spec = case["options"], case["cli"], case["special"]
     res.sample = {"options": options, "cli": cli, "special": spec, "cwd": case["cwd"]}
     results = {}
+    MD_OWN_LINE[0] = bool(case.get("md_own_line"))
     for fmt in case.get("formats", ("md", "toml", "config")):
         extra = []
         if spec:
